@@ -442,6 +442,13 @@ def run_case(case, arrays, classes, mon, tier, full_knobs=False,
                 if cid in skip:
                     mon.c('configs_skipped_after_crash')
                     continue
+                if cls == SSFC and len(skip) >= 3:
+                    # listed for any input: under a sanitizer every
+                    # configuration of this class ends in a report and the
+                    # worker stops after each one; three reports per work
+                    # item are taken, the remaining configurations counted
+                    mon.c('configs_not_run_listed_any_input')
+                    continue
                 mark(dict(id=cid, cls=cls, knobs=knobs, cache=cache,
                           idx=case['idx'], facts=facts, in_domain=ok,
                           threads=case['threads']))
